@@ -262,9 +262,14 @@ def oracle(sp, m, root, alphabet, depth, clauses, when):
                 continue                # a lookup failure, reported by the 'lookup' clauses
             if isinstance(exp, Node) and exp.obj is None:
                 sp.cover('implicit-map')
-            if getattr(exp, 'was_shared', False):
+            if getattr(exp, 'was_shared', False) and \
+                    getattr(exp, 'last_slot', None) != next(iter(where[id(exp)])):
+                # formerly shared and the slot that attached it LAST is gone: the known finding's trigger.  (If the
+                # surviving slot is the one that attached it last the link must simply be right: ordinary clauses.)
                 later.append((comps, holder, node))
                 continue
+            if getattr(exp, 'was_shared', False):
+                sp.cover('backlink-checked-last-attached-slot-survives')
             sp.check(node.parent is holder, 'backlink-parent',
                      '%s: node at %r (%s) has parent %r, not the map containing it' % (
                          when, show(comps), 'implicit map' if isinstance(exp, Node) and exp.obj is None
@@ -275,8 +280,10 @@ def oracle(sp, m, root, alphabet, depth, clauses, when):
         # some earlier point of the history (their back-link is unambiguous again)
         for comps, holder, node in later:
             sp.cover('backlink-checked-after-unaliasing')
+            if isinstance(node, Handle):
+                sp.cover('backlink-checked-after-unaliasing-handle')
             sp.check(node.parent is holder and node.key == comps[-1], 'backlink-after-unaliasing',
-                     '%s: the map at %r is stored at exactly one place now (it had two owners earlier) but '
+                     '%s: the node at %r is stored at exactly one place now (it had two owners earlier) but '
                      'records parent %s, key %r' % (
                          when, show(comps), 'ok' if node.parent is holder else repr(node.parent), node.key),
                      was_shared=True)
@@ -323,13 +330,13 @@ def alias_candidates(root, comps):
         deepest = nxt
     here = model_lookup(root, comps)
     out, seen = [], set()
-    for path, node in model_paths(root, kinds=(Node,)):
+    for path, node in model_paths(root):
         if id(node) in seen or node is here:
             continue
         seen.add(id(node))
-        if id(deepest) in subtree_ids(node):
+        if isinstance(node, Node) and id(deepest) in subtree_ids(node):
             continue                    # the target position lies inside that map
-        out.append((node, path))
+        out.append((node, path))        # a map or a handle that is stored elsewhere in the tree
     return out
 
 
@@ -391,16 +398,21 @@ def h_tree(sp, L=2, alphabet=('a', 'b', ''), depth=3, values=(0, 1, 2, 3), ops=(
                     # a map that is stored elsewhere in the tree gets a second owner (no cycle); only reads are
                     # checked for it afterwards
                     mval, at = cands[kind]
-                    value = mval.obj if mval.obj is not None else real_walk(m, at)
-                    if not isinstance(value, ResourceMap):
-                        sp.assume(False)
-                    mval.obj = value
-                    mval.was_shared = True
                     kind = None
-                    desc = 'the map that is also stored at %r (names %r)' % (show(at), sorted(mval.kids))
-                    sp.cover('alias-insert')
-                    if mval.kids:
-                        sp.cover('alias-insert-nonempty')
+                    mval.was_shared = True
+                    if isinstance(mval, TokHandle):
+                        value = mval
+                        desc = 'the handle %r that is also stored at %r' % (mval, show(at))
+                        sp.cover('alias-insert-handle')
+                    else:
+                        value = mval.obj if mval.obj is not None else real_walk(m, at)
+                        if not isinstance(value, ResourceMap):
+                            sp.assume(False)
+                        mval.obj = value
+                        desc = 'the map that is also stored at %r (names %r)' % (show(at), sorted(mval.kids))
+                        sp.cover('alias-insert')
+                        if mval.kids:
+                            sp.cover('alias-insert-nonempty')
                 elif how == 'same':
                     mval = model_lookup(root, comps)
                     if isinstance(mval, TokHandle):
@@ -470,6 +482,7 @@ def h_tree(sp, L=2, alphabet=('a', 'b', ''), depth=3, values=(0, 1, 2, 3), ops=(
                                           show(comps[j:]), desc))
                 target[show(comps[j:])] = value
                 model_set(root, comps, mval)
+                mval.last_slot = (id(model_lookup(root, comps[:-1])), comps[-1])     # the slot that attached it last
                 for mv, real_obj, holder, holder_node, name in displaced:
                     # eligible for re-insertion only if really stored nowhere (a handle that was visible from a
                     # lower layer stays stored there when a new handle shadows it)
@@ -516,6 +529,8 @@ def h_tree(sp, L=2, alphabet=('a', 'b', ''), depth=3, values=(0, 1, 2, 3), ops=(
                 shared_now = {i for i, w in slots(root).items() if len(w) > 1}
                 skip = {id(target.maps.get(k)) for k, v in node.kids.items()
                         if isinstance(v, Node) and (id(v) in shared_now or v.was_shared)}
+                skip |= {id(v) for v in node.kids.values()
+                         if isinstance(v, TokHandle) and (id(v) in shared_now or getattr(v, 'was_shared', False))}
                 if id(node) in shared_now:
                     sp.cover('alias-clear-shared-map')
                 sp.note('(map %r).clear()' % show(comps))
@@ -591,7 +606,8 @@ _REINS_REQ = ['handle-read', 'deep-handle-read', 'map-over-handle', 'handle-over
               'reassign-same-handle', 'reassign-same-map',
               'reinsert-same-map-other-name', 'reinsert-map-same-map-other-name', 'clear-nonempty']
 
-_ALIAS_REQ = ['backlink-checked-after-unaliasing', 'alias-insert', 'alias-insert-nonempty', 'alias-handle-read-through-shared-map',
+_ALIAS_REQ = ['backlink-checked-last-attached-slot-survives', 'backlink-checked-after-unaliasing', 'backlink-checked-after-unaliasing-handle', 'alias-insert-handle',
+              'alias-insert', 'alias-insert-nonempty', 'alias-handle-read-through-shared-map',
               'alias-set-through-shared-map', 'shared-map-backlink-skipped', 'handle-read', 'deep-handle-read',
               'map-over-handle', 'handle-over-map', 'implicit-map', 'alias-clear-shared-map']
 _FLAV_REQ = ['flavour-falsy', 'flavour-empty', 'flavour-equal', 'handle-read', 'deep-handle-read', 'map-over-handle',
@@ -660,10 +676,11 @@ ASSUMPTIONS = [
     'flavour entries: all handles and maps of a history are instances of subclasses that are falsy (__bool__ '
     'False), empty (__len__ 0) or equal to everything (__eq__ True, constant __hash__); the oracle is the same, '
     'it only ever compares identities',
-    'aliasing entries (alias=True): a set may store a map that is already stored elsewhere in the tree under a '
-    'second owner (never creating a cycle); get / [] / chained [] through both owners must agree with the model '
+    'aliasing entries (alias=True): a set may store a map or a handle that is already stored elsewhere in the tree '
+    'under a second owner / second name (never creating a cycle); get / [] / chained [] through both owners must agree with the model '
     'after every operation; parent/key of a map are not checked while it has two owners (not fixed by the '
-    'statement); once it is back to exactly one owner slot they are checked under the separate clause '
+    'statement); once it is back to exactly one owner slot they are checked: with the ordinary clauses if that '
+    'slot is the one that attached it last, else under the separate clause '
     'backlink-after-unaliasing (known finding C11-backlink-after-unaliasing: the link still names the owner that '
     'attached it last); detachment by clear() of children that ever had two owners is not checked',
     'every assigned value is a fresh object, or the very object already stored under exactly that name in that map '
